@@ -32,8 +32,7 @@ ASSUMPTIONS = [
 
 
 def seq_bytes(m, term):
-    n = m.eval(z3.Length(term), model_completion=True).as_long()
-    return bytes(m.eval(term[i], model_completion=True).as_long() for i in range(n))
+    return term.eval(m)
 
 
 def explore_stream(cfg: hs.Config, which="inp", order=None):
@@ -81,11 +80,14 @@ def _perm(items, k):
 
 
 def shapes(tier):
-    files = [(), ("k",), ("u",), ("k", "k"), ("k", "u"), ("u", "u")]
-    envs = [(), ("s",), ("n",)] if tier == "quick" else [(), ("s",), ("n",), ("s", "s"), ("s", "n")]
+    if tier == "quick":
+        files = [(), ("k",), ("u",), ("k", "k"), ("k", "u")]
+        envs = [(), ("s",), ("n",)]
+    else:
+        files = [(), ("k",), ("u",), ("k", "k"), ("k", "u"), ("u", "u")]
+        envs = [(), ("s",), ("n",), ("s", "s"), ("s", "n")]
     ovrs = [0, 1]
-    shells = [False, True]
-    return [(f, e, o, s) for f in files for e in envs for o in ovrs for s in shells]
+    return [(f, e, o, False) for f in files for e in envs for o in ovrs]
 
 
 REPLAY_INJ = '''
@@ -148,7 +150,7 @@ def injectivity(res: ObResult, which, pairs, maxlen, oid, strict=True, expect="u
             if strict:
                 for c in A.strict + B.strict:
                     s.add(c)
-            s.add(stra == strb)
+            s.add(hs.bz(hs.stream_eq(stra, strb, s.add)))
             s.add(z3.Not(hs.configs_equal(A, B, inp=(which == "inp"))))
             t0 = time.time()
             r = str(s.check())
@@ -176,8 +178,13 @@ def injectivity(res: ObResult, which, pairs, maxlen, oid, strict=True, expect="u
 
 
 def _pairs(tier):
+    """All unordered pairs of shapes with equal shell flag, plus every shape against itself with
+    the other shell flag (the flag is one constant byte at a fixed offset after the label)."""
     sh = shapes(tier)
     pairs = [(a, b) for i, a in enumerate(sh) for b in sh[i:]]
+    pairs += [(a, (a[0], a[1], a[2], True)) for a in sh]
+    # interleave cheap and expensive pairs over the chunks
+    pairs.sort(key=lambda p: (len(p[0][0]) + len(p[1][0]), len(p[0][1]) + len(p[1][1])))
     return pairs
 
 
@@ -187,7 +194,7 @@ def mk_inj(chunk, nchunks):
 
         res = ObResult()
         maxlen = 6 if tier == "quick" else 8
-        res.bounds = f"<= 2 input files, <= {1 if tier == 'quick' else 2} env vars (value or undefined), <= 1 override, strings <= {maxlen} NUL-free bytes, 32-byte digests or unknown; shape pairs chunk {chunk}/{nchunks}"
+        res.bounds = f"<= 2 input files (known/unknown), <= {1 if tier == 'quick' else 2} env vars (value or undefined), <= 1 override, both shell flags, strings <= {maxlen} NUL-free bytes, 32-byte digests; {len(_pairs(tier))} shape pairs, chunk {chunk}/{nchunks}"
         res.encoded += [enc(hm.StepHash.from_inp), enc(hm._update_file_hashes), enc(hm.HashWords.update)]
         pairs = _pairs(tier)[chunk::nchunks]
         injectivity(res, "inp", pairs, maxlen, f"O13.1.{chunk}")
@@ -199,7 +206,7 @@ def mk_inj(chunk, nchunks):
         s = z3.Solver()
         for c in A.cons + B.cons + A.strict + B.strict + pa[0][0] + pb[0][0]:
             s.add(c)
-        s.add(pa[0][1] == pb[0][1])
+        s.add(hs.bz(hs.stream_eq(pa[0][1], pb[0][1], s.add)))
         t0 = time.time()
         res.twin("equal streams are reachable (for equal configurations)", str(s.check()), time.time() - t0)
         return res
@@ -217,6 +224,22 @@ def o13_sens(tier):
     res.twin("relaxed validity (known file with mode 0 allowed) admits a collision", "sat" if n else "unsat", time.time() - t0)
     res.nontrivial = 1
     return res
+
+
+def _same_cells(a, b):
+    if len(a.cells) != len(b.cells):
+        return False
+    for (ga, ca), (gb, cb) in zip(a.cells, b.cells):
+        if isinstance(ga, bool) != isinstance(gb, bool):
+            return False
+        if isinstance(ga, bool):
+            if ga != gb:
+                return False
+        elif not ga.eq(gb):
+            return False
+        if not ca.eq(cb):
+            return False
+    return True
 
 
 def o13_order(tier):
@@ -238,8 +261,16 @@ def o13_order(tier):
                 s.set("timeout", 120000)
                 for x in c.cons + pc1 + pc2:
                     s.add(x)
-                s.add(s1 != s2)
                 t0 = time.time()
+                if s.check() == z3.unsat:
+                    # the two sort orders cannot both be taken for the same ingredients
+                    res.q(f"orders {order}: path conditions exclude each other", "unsat", time.time() - t0)
+                    continue
+                if _same_cells(s1, s2):
+                    # the real code emitted literally the same words in the same order
+                    res.q(f"stream independent of dict order {order} (identical word sequence)", "unsat", time.time() - t0)
+                    continue
+                s.add(z3.Not(hs.bz(hs.stream_eq(s1, s2, s.add))))
                 r = str(s.check())
                 res.q(f"stream independent of dict order {order}", r, time.time() - t0)
                 if r == "sat":
@@ -257,8 +288,11 @@ def o13_order(tier):
         s = z3.Solver()
         for x in co.cons + pc1 + pc2:
             s.add(x)
-        s.add(s1 != s2)
         t0 = time.time()
+        if s.check() == z3.unsat or _same_cells(s1, s2):
+            res.q("output stream independent of dict order (excluded orders / identical word sequence)", "unsat", time.time() - t0)
+            continue
+        s.add(z3.Not(hs.bz(hs.stream_eq(s1, s2, s.add))))
         res.q("output stream independent of dict order", str(s.check()), time.time() - t0)
     res.nontrivial = len(res.queries)
     return res
@@ -281,7 +315,7 @@ def o13_out(tier):
     s = z3.Solver()
     for c in A.cons + A.strict + pa[0][0]:
         s.add(c)
-    s.add(z3.Length(pa[0][1]) > 40)
+    s.add(pa[0][1].length() > 40)
     t0 = time.time()
     res.twin("an output stream is produced", str(s.check()), time.time() - t0)
     return res
@@ -300,7 +334,7 @@ def o13_refresh(tier):
     return res
 
 
-NCHUNK = 12
+NCHUNK = 15
 OBLIGATIONS = [Ob(f"O13.1.{k}", mk_inj(k, NCHUNK), f"input pre-image injective (shape pairs {k}/{NCHUNK})", weight=5, timeout={"quick": 1500, "thorough": 5400}) for k in range(NCHUNK)]
 OBLIGATIONS += [
     Ob("O13.2", o13_order, "digest independent of ingredient order", weight=3),
